@@ -6,6 +6,7 @@ pub mod c02;
 pub mod c03;
 pub mod c06;
 pub mod c07;
+pub mod c08;
 pub mod c09;
 pub mod c10;
 pub mod c11;
@@ -14,7 +15,7 @@ pub mod c16;
 pub mod c20;
 
 pub fn all() -> Vec<&'static PropDef> {
-    vec![&c01::DEF, &c02::DEF, &c03::DEF, &c06::DEF, &c07::DEF, &c09::DEF, &c10::DEF, &c11::DEF, &c12::DEF, &c16::DEF, &c20::DEF]
+    vec![&c01::DEF, &c02::DEF, &c03::DEF, &c06::DEF, &c07::DEF, &c08::DEF, &c09::DEF, &c10::DEF, &c11::DEF, &c12::DEF, &c16::DEF, &c20::DEF]
 }
 
 pub fn find(id: &str) -> Option<&'static PropDef> {
